@@ -11,10 +11,12 @@ used (public getters called): histories are part of the quantifier.
 """
 import ast
 import re
+from fractions import Fraction as Fr
 
 from ..nf import Rat, C
-from ..source import Unsupported, AnchorError, Module
-from ..xlate import Interp, Frame, Obj, ListV, DictV, Raised, RankOrder, _RaisedExc
+from ..source import Unsupported, AnchorError, Module, ClassInfo
+from ..xlate import Interp, Frame, Obj, ListV, DictV, Raised, RankOrder, _RaisedExc, is_iter
+from ..absstr import SegStr
 from .common import same, show
 
 JSON = 'pmutt.io.json'
@@ -43,8 +45,83 @@ def call_default(I, v):
         raise
 
 
+def via_default(I, v, path, what):
+    """what json does with a value it cannot write itself: it asks the encoder's default() (interpreted) and writes
+    what that returns; a default() that raises ends the encoding"""
+    d = call_default(I, v)
+    if isinstance(d, Raised):
+        raise Problem('%s: %s is left in the dictionary (%s: Object of type %s is not JSON serializable)'
+                      % (path, what[0], d.exc, what[1]))
+    if d is v:
+        raise Problem('%s: the encoder hands %s back as it is (ValueError: Circular reference detected)'
+                      % (path, what[0]))
+    return encode(I, d, path)
+
+
+def json_key(I, d, nk, path):
+    """the key of a JSON object is a text: json writes str keys as they are, numbers, booleans and None in their JSON
+    spelling (what json.loads returns is that text, not the number), and refuses every other key (a tuple ...) with
+    TypeError - default() is not asked for keys"""
+    k = d.okey(nk)
+    if isinstance(k, (str, SegStr)):
+        return nk, d.keyobj.get(nk)
+    if isinstance(k, bool):
+        return ('true' if k else 'false'), None
+    if k is None:
+        return 'null', None
+    if isinstance(k, int):
+        return str(k), None
+    if isinstance(k, Rat):
+        if k.iszero() or (k.is_const() and k.const_value().denominator == 1):
+            # 1 or 1.0: the model has one number type for constants, the text of the key is not known
+            raise Unsupported('a whole number as key of a dictionary handed to json (%s: written as "1" or as "1.0"?)'
+                              % path)
+        t = I.plain(I.seg(k))          # the text str() gives; float() of it is the number again
+        if isinstance(t, str):
+            return t, None
+        return DictV().nkey(t), t
+    raise Problem('%s: a key that is not a text or a number (TypeError: keys must be str, int, float, bool or None)'
+                  % path)
+
+
+class _ObjectMembers(dict):
+    """attribute table of a stand-in for an object of a class outside the package.  It has the attributes it is given;
+    a name every Python object answers (dir(object): __doc__, __eq__, __reduce__ ...) that the stand-in has no value
+    for is refused - it is not the AttributeError a closed stand-in would otherwise model"""
+    EVERY_OBJECT = (frozenset(dir(object)) | {'__weakref__'}) - {'__class__', '__doc__', '__module__'}
+
+    def __contains__(self, k):
+        if dict.__contains__(self, k):
+            return True
+        if k in self.EVERY_OBJECT:
+            raise Unsupported('member %s of a stand-in object of the rule (every Python object has it; no model)' % k)
+        return False
+
+    def __getitem__(self, k):
+        if k in self:
+            return dict.__getitem__(self, k)
+        raise KeyError(k)
+
+    def get(self, k, default=None):
+        return dict.__getitem__(self, k) if k in self else default
+
+
+def foreign_object(label, cname, opaque_methods=None):
+    """an object of a class that is not part of the package (what a user may leave in a dictionary handed to json):
+    a class without methods in a module of the user's, an instance without attributes"""
+    m = Module('userdata', '<rule>', '<rule>', "class %s:\n    __module__ = 'userdata'\n    __doc__ = None\n" % cname)
+    ci = ClassInfo(m, m.tree.body[0])
+    ci.mro = [ci]
+    m.classes[cname] = ci
+    o = Obj(label, ci, closed=True, opaque_methods=opaque_methods)
+    o.attrs = _ObjectMembers()
+    return o
+
+
 def encode(I, v, path='$'):
-    """model of json.dumps(..., cls=pmuttEncoder) followed by json.loads without hook"""
+    """model of json.dumps(..., cls=pmuttEncoder) followed by json.loads without hook: json writes dict, list, tuple,
+    str, int, float, bool and None itself and hands everything else - an object, a set, a map/filter/zip/generator
+    object, a class, a function - to the encoder's default()"""
     if isinstance(v, Obj):
         if v.ci is None:
             raise Problem('%s: opaque object cannot be serialised' % path)
@@ -60,8 +137,18 @@ def encode(I, v, path='$'):
     if isinstance(v, DictV):
         out = DictV()
         for k, x in v.d.items():
-            out.d[k] = encode(I, x, '%s.%s' % (path, k))
+            k2, ko = json_key(I, v, k, path)
+            out.d[k2] = encode(I, x, '%s.%s' % (path, k))
+            if ko is not None:
+                out.keyobj[k2] = ko
         return out
+    if isinstance(v, ListV) and (is_iter(v) or any(getattr(v, m_, False) for m_ in ('is_set', 'is_view', 'is_range'))):
+        # not a list and not a tuple: json cannot write it (a Python-2 habit: map() returned a list there).  is_view /
+        # is_range: dict views and range objects, should the interpreter mark them one day (REQ3_C11 item 4)
+        kind = 'set' if getattr(v, 'is_set', False) else 'dict view' if getattr(v, 'is_view', False) else \
+            'range' if getattr(v, 'is_range', False) else 'iterator'
+        return via_default(I, v, path, ('a set (set / frozenset)' if kind == 'set' else 'a %s' % kind if kind != 'iterator'
+                                        else 'an iterator (a map / filter / reversed / zip / generator object)', kind))
     if isinstance(v, ListV):
         if getattr(v, 'is_array', False):
             raise Problem('%s: a numpy array is left in the dictionary (TypeError: Object of type ndarray is not '
@@ -75,7 +162,50 @@ def encode(I, v, path='$'):
     if getattr(v, 'np_int', False):
         # a single numpy integer (an item of an integer array), should the interpreter mark scalars one day
         raise Problem('%s: a numpy integer (TypeError: Object of type int64 is not JSON serializable)' % path)
-    return v
+    if v is None or isinstance(v, (bool, int, float, Fr, str, SegStr, Rat)):
+        return v
+    # anything else (a zip object, a class, a function, a vector of unknown length ...) is no JSON value
+    return via_default(I, v, path, ('%s' % show(v, 40), type(v).__name__))
+
+
+_SPEC = re.compile(r'^%?(?:.?[<>=^])?[ +\-#0]*\d*[,_]?(?:\.(\d+))?([a-zA-Z])?$')
+
+
+def exact_print(spec):
+    """does a float printed with this format specification read back as the same float?  The plain conversion (str,
+    repr, '{}', '%s', '{!r}': the shortest text that reads back to the same number) does; so do the exponent and
+    general presentations with 17 significant digits or more.  Everything else rounds (E15.8 keeps nine digits)."""
+    m_ = _SPEC.match(spec or '')
+    if m_ is None:
+        return False
+    prec, typ = m_.group(1), m_.group(2)
+    if typ is None:
+        return prec is None or int(prec) >= 17          # '{:.17}': the general presentation
+    if typ in 'rs':
+        return prec is None
+    if typ in 'eE':
+        return prec is not None and int(prec) >= 16
+    if typ in 'gG':
+        return prec is not None and int(prec) >= 17
+    return False
+
+
+def unprinted(I, r):
+    """a number the package printed and read back (float('{:.8E}'.format(x))) is, for the interpreter of this rule,
+    the number as rounded by that format - unless the format is exact: then it is the number itself"""
+    if not isinstance(r, Rat) or not I.printed:
+        return r
+    for _ in range(8):
+        ats = [a_ for a_ in r.atoms() if a_ in I.printed and exact_print(I.printed[a_][0])]
+        done = True
+        for a_ in ats:
+            sl = r.split_linear(a_)
+            if sl is not None:
+                r = sl[0] * I.printed[a_][1] + sl[1]
+                done = False
+        if done:
+            break
+    return r
 
 
 def deep_copy(v):
@@ -86,13 +216,13 @@ def deep_copy(v):
     return v
 
 
-def deep_same(a, b):
+def deep_same(a, b, num=None):
     if isinstance(a, DictV) and isinstance(b, DictV):
-        return list(a.d.keys()) == list(b.d.keys()) and all(deep_same(a.d[k], b.d[k]) for k in a.d)
+        return list(a.d.keys()) == list(b.d.keys()) and all(deep_same(a.d[k], b.d[k], num) for k in a.d)
     if isinstance(a, ListV) and isinstance(b, ListV):
-        return len(a) == len(b) and all(deep_same(x, y) for x, y in zip(a.items, b.items))
+        return len(a) == len(b) and all(deep_same(x, y, num) for x, y in zip(a.items, b.items))
     if isinstance(a, Rat) and isinstance(b, Rat):
-        return a.eq(b)
+        return a.eq(b) or (num is not None and num(a).eq(num(b)))
     if isinstance(a, (DictV, ListV, Rat)) or isinstance(b, (DictV, ListV, Rat)):
         return False
     return a is b or a == b
@@ -116,7 +246,7 @@ def decode(I, jm, v, mutated, path='$'):
     return v
 
 
-def differences(a, b, path, out, depth=0, owner=None, attr=None, visited=None, pub=None, name_of=None):
+def differences(a, b, path, out, depth=0, owner=None, attr=None, visited=None, pub=None, name_of=None, num=None):
     """attribute-wise comparison of the original and the decoded object; every difference is attributed to
     the innermost enclosing object's class and attribute: out gets (class name, attribute, message).  A pair of
     objects that is already being compared is not entered again (a reaction and the BEP relation it registers itself
@@ -147,7 +277,7 @@ def differences(a, b, path, out, depth=0, owner=None, attr=None, visited=None, p
                 out.append((cname, nk, '%s.%s: appears only after decoding' % (path, nk)))
             else:
                 differences(a.attrs[k], b.attrs[k], '%s.%s' % (path, nk), out, depth + 1, cname, nk, visited, pub,
-                            name_of)
+                            name_of, num)
         return
     if isinstance(a, Obj) or isinstance(b, Obj):
         rec('%s became %s' % (show(a, 40), 'a plain dict' if isinstance(b, DictV) else show(b, 40)))
@@ -157,17 +287,18 @@ def differences(a, b, path, out, depth=0, owner=None, attr=None, visited=None, p
             rec('length %d became %d' % (len(a), len(b)))
             return
         for i, (x, y) in enumerate(zip(a.items, b.items)):
-            differences(x, y, '%s[%d]' % (path, i), out, depth + 1, owner, attr, visited, pub, name_of)
+            differences(x, y, '%s[%d]' % (path, i), out, depth + 1, owner, attr, visited, pub, name_of, num)
         return
     if isinstance(a, DictV) and isinstance(b, DictV):
         for k in sorted(set(a.d) | set(b.d), key=str):
             if k not in a.d or k not in b.d:
                 rec('key %r differs' % (k,))
             else:
-                differences(a.d[k], b.d[k], '%s[%r]' % (path, k), out, depth + 1, owner, attr, visited, pub, name_of)
+                differences(a.d[k], b.d[k], '%s[%r]' % (path, k), out, depth + 1, owner, attr, visited, pub, name_of,
+                            num)
         return
     if isinstance(a, Rat) and isinstance(b, Rat):
-        if not a.eq(b):
+        if not a.eq(b) and not (num is not None and num(a).eq(num(b))):
             rec('%s became %s' % (show(a, 40), show(b, 40)))
         return
     if isinstance(a, DictV) or isinstance(b, DictV) or isinstance(a, ListV) or isinstance(b, ListV):
@@ -447,6 +578,23 @@ def builders(I, repo):
         return rxn(qual, reactants_stoich=ListV([D.sym('nui1'), D.sym('nui2')]),
                    products_stoich=ListV([D.sym('nui3')]), transition_state_stoich=ListV([D.sym('nui4')]), notes=None,
                    **extra)
+    # numbers typed without a decimal point (wavenumbers 3650, 1595; intervals 0, 1; a slope of 2): lists of Python
+    # ints.  A class that turns such a list into an array holds numpy integers, and list() of that array is not
+    # something json can write (HarmonicVib does: see DEFECT3_C11 - its integer instance is not armed)
+    def ints(*names):
+        I.int_syms.update(names)
+        return ListV([D.sym(n_) for n_ in names])
+    add('QRRHOVib[integer wavenumbers]', lambda: new(S + 'vib.QRRHOVib', vib_wavenumbers=ints('w0i', 'w1i'),
+                                                     Bav=D.sym('Bav'), v0=D.sym('v0'), alpha=D.sym('alpha')))
+    add('PiecewiseCovEffect[integer intervals and slopes]', lambda: new(
+        'pmutt.mixture.cov.PiecewiseCovEffect', name_i='A', name_j='B',
+        intervals=ListV([C(0)] + ints('b1i').items), slopes=ints('k0i', 'k1i'), name='cov2'))
+    add('RigidRotor[integer rot_temperatures]', lambda: new(S + 'rot.RigidRotor', symmetrynumber=D.sym('sigma'),
+                                                            rot_temperatures=ints('th0i', 'th1i', 'th2i'),
+                                                            geometry='nonlinear'))
+    add('ExtendedLSR[integer slopes, numeric reactions]', lambda: new(
+        S + 'lsr.ExtendedLSR', slopes=ints('e0i', 'e1i'), intercept=D.sym('eicpt'),
+        reactions=ListV([D.sym('dE0'), D.sym('dE1')])))
     add('Reaction[integer stoichiometry]', lambda: int_rxn('pmutt.reaction.Reaction'))
     add('ChemkinReaction[integer stoichiometry]', lambda: int_rxn('pmutt.reaction.ChemkinReaction',
                                                                   beta=D.sym('beta'), is_adsorption=False))
@@ -491,10 +639,14 @@ def getter_calls(repo, ci):
     calls = []
     for nm in names:
         got = repo.find_method(ci, nm, missing_ok=True)
-        if not got or got[1].decorator_list:
+        if not got:
+            continue
+        deco = [ast.unparse(d_) for d_ in got[1].decorator_list]
+        if deco and deco != ['staticmethod']:
             continue
         a = got[1].args
-        pos = [x.arg for x in a.posonlyargs + a.args][1:]
+        # a getter that never touches the object may be a static method: called through the instance all the same
+        pos = [x.arg for x in a.posonlyargs + a.args][0 if deco else 1:]
         required = pos[:len(pos) - len(a.defaults)] + [x.arg for x, d_ in zip(a.kwonlyargs, a.kw_defaults) if d_ is None]
         if any(p_ not in HIST_ARGS for p_ in required):
             continue
@@ -505,14 +657,24 @@ def getter_calls(repo, ci):
     return calls
 
 
+def new_interp(repo, order=None):
+    """numbers the package prints and reads back on the way into or out of the dictionary (float('{:.8E}'.format(a)))
+    are the numbers as printed - named by their format - not the numbers that were printed"""
+    I = Interp(repo, order=order)
+    I.track_print_precision = True
+    return I
+
+
 def check(run, repo):
     run.explanation = (
         'Every serialisable class named by the property is instantiated through its real constructor with symbolic '
         'attribute values (nested: species inside reactions inside reaction sets; two reactions whose species share a '
         'name or have none; a reaction registered with the BEP relation that is its transition state; an imaginary '
         'wavenumber with and without substitute; kinetic parameters that are zero; integer stoichiometry); the real '
-        'to_dict is interpreted, the result encoded as pmuttEncoder/json would (objects through the interpreted '
-        'default(), tuples as arrays, numpy arrays and lists of numpy integers are not encodable) and decoded bottom-up '
+        'to_dict is interpreted, the result encoded as pmuttEncoder/json would (dict, list, tuple, text, number, bool '
+        'and None are written; objects, sets, map/filter/zip/generator objects and anything else go through the '
+        'interpreted default(); numpy arrays and lists of numpy integers are not encodable; keys become texts) and '
+        'decoded bottom-up '
         'through the real json_to_pmutt, type_to_class and from_dict code. Decided per class: encoding succeeds; the '
         'decoded value is an object of the same class (registry entry present, class string matches); every attribute '
         'of the original equals the decoded one (constructor state written, read back under the right key, not '
@@ -520,14 +682,23 @@ def check(run, repo):
         'object. Histories: the same cycle after the public getters of the object have been called (each alone on an '
         'object of its own, and all of them on one object at two temperatures) - what a getter leaves behind must not '
         'keep the object from being encoded and decoded, and its public state (public attributes, property values) '
-        'must come back. The encoder is interpreted on objects it cannot serialise: default() must not return.')
+        'must come back. A number the package prints and reads back on the way (float of a formatted text) is the '
+        'number as rounded by that format: equal to the original only for the plain conversion or 17 significant '
+        'digits. Lists of numbers typed as integers are instances of their own. The encoder is interpreted on objects '
+        'of a class outside the package it cannot serialise: default() must not return.')
     run.assumptions = ['json.dumps/loads modelled structurally: dict/list/str/number/bool/None pass through, tuples '
-                       'become lists, any other object goes through pmuttEncoder.default',
+                       'become lists, any other value goes through pmuttEncoder.default; json writes a float as the '
+                       'shortest text that reads back to the same float (exact)',
+                       'the symbols of quantities the documentation restricts to positive values (van der Waals '
+                       'constants, characteristic temperatures, molecular weight, densities) carry a valid witness '
+                       'value: a validation of such an attribute is decided for it',
                        'json.JSONEncoder.default (the base class, outside the repository) raises TypeError',
                        'list versus ndarray is not distinguished when comparing attributes',
                        'quick tier: histories for the objects that hold no other pMuTT object (mode models, equations '
                        'of state, adjustments); thorough tier: for every instance']
-    run.undecided = ['JSON float formatting',
+    run.undecided = ['rounding by round()/np.round/narrow float types (refused), only rounding through printed text is '
+                     'decided',
+                     'a whole-number constant as dictionary key (written as "1" or "1.0": refused)',
                      'NumPy integers reached by iterating over or indexing an integer array (list()/tuple() of one is '
                      'decided); integer constants are not told from floats, the integer instances use declared symbols',
                      'equality of getter values beyond attribute equality (constructors are deterministic by '
@@ -554,8 +725,14 @@ def check(run, repo):
         run.check(r is d_ and d_.d == snap, 'PATH.hook-passthrough', 'json.json_to_pmutt', lab,
                   'a dictionary that is not a serialised pMuTT object (%s) must be returned unchanged by the object '
                   'hook; got %s' % (lab, show(r, 80)), jm, hook, sample='json_to_pmutt(%s) is the same dictionary' % lab)
-    order = RankOrder({'w0': 5, 'w1': 7, 'b1': 3, 'wi': -5, 'wsub': 2}, const_ranks=True)
-    I0 = Interp(repo, order=order)
+    # a witness value for the quantities the documentation restricts in sign or order (wavenumbers, interval bounds,
+    # van der Waals constants, characteristic temperatures, masses, densities): a validation of such an attribute
+    # (`if val <= 0.: raise ValueError`) is decided for a valid value, which is what the property quantifies over
+    VALID = {'w0': 5, 'w1': 7, 'b1': 3, 'wi': -5, 'wsub': 2, 'w0i': 5, 'w1i': 7, 'b1i': 3,
+             'vdwa': Fr(547, 1000), 'vdwb': Fr(305, 10 ** 7), 'thE': 215, 'thD': 215, 'mw': Fr(1802, 100),
+             'sden': Fr(25, 10 ** 10), 'rho': Fr(2145, 100)}
+    order = RankOrder(dict(VALID), const_ranks=True)
+    I0 = new_interp(repo, order)
     labels = [lab for lab, _ in builders(I0, repo)]
     run.floor('serialisable classes', len(labels), 30)
 
@@ -612,7 +789,8 @@ def check(run, repo):
         diffs = []
         # an object that has been used is compared by its public state (public attributes and what the property
         # getters return): a cache a getter left behind is not part of what the property promises to restore
-        differences(obj, dec, label, diffs, pub=None if hist is None else is_public, name_of=public_name)
+        differences(obj, dec, label, diffs, pub=None if hist is None else is_public, name_of=public_name,
+                    num=lambda r_: unprinted(I, r_))
         # one finding per (class, attribute, what happened to the value): nested occurrences of the same defect
         # collapse, a different defect at the same attribute does not
         seen = set()
@@ -638,7 +816,7 @@ def check(run, repo):
         # second cycle
         try:
             enc2 = encode(I, dec)
-            ok2 = deep_same(enc, enc2)
+            ok2 = deep_same(enc, enc2, lambda r_: unprinted(I, r_))
         except Problem as e:
             ok2 = False
         if not diffs and hist is None:
@@ -683,7 +861,7 @@ def check(run, repo):
 
 
     for idx, label in enumerate(labels):
-        I = Interp(repo, order=order)
+        I = new_interp(repo, order)
         fn_build = builders(I, repo)[idx][1]
         try:
             obj = fn_build()
@@ -704,7 +882,7 @@ def check(run, repo):
             if name.startswith(pre):
                 return rk
         return None
-    order_h = RankOrder({'w0': 5, 'w1': 7, 'b1': 3, 'wi': -5, 'wsub': 2, 'T': 300, 'T2': 700, 'P': 1, 'V': 1, 'n': 1,
+    order_h = RankOrder({**VALID, 'T': 300, 'T2': 700, 'P': 1, 'V': 1, 'n': 1,
                          'T9h0': 500, 'T9l1': 500}, const_ranks=True, fallback=hist_rank)
     def holds_objects(v, top=True):
         if isinstance(v, Obj):
@@ -716,7 +894,7 @@ def check(run, repo):
         return False
     n_hist = 0
     for idx, label in enumerate(labels):
-        I = Interp(repo, order=order_h)
+        I = new_interp(repo, order_h)
         try:
             obj = builders(I, repo)[idx][1]()
         except Problem:
@@ -770,12 +948,14 @@ def check(run, repo):
     run.fn(JSON + '.pmuttEncoder.default')
     # (1) no to_dict at all: json's contract for default() is the TypeError of the base class; (2) a to_dict that
     # fails with AttributeError (an object half built): the pinned encoder turns that into the same TypeError, an
-    # encoder that looks the method up first lets the AttributeError through - either way default() must not return
-    r = call_default(Ie, Obj('plain object', None, closed=True))
+    # encoder that looks the method up first lets the AttributeError through - either way default() must not return.
+    # The stand-ins are objects of a class of the user's (not of the package): they have what every Python object
+    # has - a class with a name and a module, a __dict__, a repr - and nothing else
+    r = call_default(Ie, foreign_object('plain object', 'Measurement'))
     run.check(isinstance(r, Raised) and r.exc == 'TypeError', 'PATH.encoder', 'pmuttEncoder.default', 'fallback',
               'an object without to_dict is not handed to the base encoder (which raises TypeError): default() gives %s'
               % show(r, 60), got_enc[0].module, got_enc[1], sig='no to_dict')
-    r = call_default(Ie, Obj('half-built object', None, closed=True, opaque_methods={'to_dict': no_to_dict}))
+    r = call_default(Ie, foreign_object('half-built object', 'Draft', opaque_methods={'to_dict': no_to_dict}))
     run.check(isinstance(r, Raised), 'PATH.encoder', 'pmuttEncoder.default', 'fallback',
               'an object whose to_dict raises AttributeError is encoded as %s instead of being refused' % show(r, 60),
               got_enc[0].module, got_enc[1], sig='to_dict raises')
@@ -906,4 +1086,92 @@ MUTANTS += [
                 "        val = _check_iterable_attr(val)\n        if val is not None:\n            val = np.array(val)\n"
                 "        self._reactants_stoich = val\n")]},
 ]
-EQUIV = []
+# ---- white-box review, round 3
+N_ = 'pmutt/empirical/nasa.py'
+SM_ = 'pmutt/statmech/__init__.py'
+MUTANTS += [
+    {'name': 'Nasa.to_dict rounds the coefficients to the precision of the thermdat format (E15.8)',
+     'expect': ('TABLE.roundtrip', 'Nasa'),
+     'edits': [(N_, "        obj_dict['a_low'] = self.a_low.tolist()\n",
+                "        obj_dict['a_low'] = [float('{:.8E}'.format(a)) for a in self.a_low]\n")]},
+    {'name': 'EinsteinVib.to_dict writes the temperature with six significant digits (%-formatting)',
+     'expect': ('TABLE.roundtrip', 'EinsteinVib'),
+     'edits': [(V_, "            'einstein_temperature': self.einstein_temperature,\n",
+                "            'einstein_temperature': float('%.6g' % self.einstein_temperature),\n")]},
+    {'name': 'DebyeVib memoises its quadratures through self.__dict__.setdefault (generic to_dict writes the memo)',
+     'expect': ('TABLE.decode', 'DebyeVib'),
+     'edits': [(V_, "        integral = quad(func=fn, a=0., b=vib_dimless)[0]\n        return 3. * integral / vib_dimless**3\n",
+                "        integrals = self.__dict__.setdefault('_integrals', {})\n"
+                "        key = '{}({!r})'.format(fn.__name__, vib_dimless)\n"
+                "        if key not in integrals:\n"
+                "            integrals[key] = quad(func=fn, a=0., b=vib_dimless)[0]\n"
+                "        return 3. * integrals[key] / vib_dimless**3\n")]},
+    {'name': 'StatMech.to_dict tests the truth of its references (References.__len__ of a None list raises)',
+     'expect': ('TABLE.encode', 'StatMech'),
+     'edits': [(SM_, "        try:\n            obj_dict['references'] = self.references.to_dict()\n"
+                     "        except AttributeError:\n            obj_dict['references'] = self.references\n",
+                "        if self.references:\n            obj_dict['references'] = self.references.to_dict()\n"
+                "        else:\n            obj_dict['references'] = None\n")]},
+    {'name': 'QRRHOVib keeps its wavenumbers as an array like HarmonicVib (list() of an integer array holds np.int64)',
+     'expect': ('TABLE.encode', 'QRRHOVib'),
+     'edits': [(V_, "        self.vib_wavenumbers = vib_wavenumbers\n",
+                "        self.vib_wavenumbers = np.array(vib_wavenumbers)\n")]},
+    {'name': 'PiecewiseCovEffect keeps its slopes as an array (integer slopes cannot be written)',
+     'expect': ('TABLE.encode', 'PiecewiseCovEffect'),
+     'edits': [('pmutt/mixture/cov.py', "        self.slopes = slopes\n        self._set_intercepts()\n",
+                "        self.slopes = np.array(slopes)\n        self._set_intercepts()\n")]},
+    {'name': 'the encoder returns the text of an object without to_dict (repr) instead of refusing it',
+     'expect': ('PATH.encoder', 'pmuttEncoder.default'),
+     'edits': [(J_, "            super().default(o)\n", "            return '<{}>'.format(o.__class__.__name__)\n")]},
+]
+# the three changes of round 3 that needed a model in the interpreter (map objects, __slots__, property() objects)
+E_ = 'pmutt/eos/__init__.py'
+MUTANTS += [
+    {'name': 'Nasa9.to_dict hands json a map object', 'expect': ('TABLE.encode', 'Nasa9'),
+     'edits': [(N_, "        obj_dict['nasas'] = [nasa.to_dict() for nasa in self.nasas]\n",
+                "        obj_dict['nasas'] = map(SingleNasa9.to_dict, self.nasas)\n")]},
+    {'name': 'Reactions.to_dict hands json a generator', 'expect': ('TABLE.encode', 'Reactions'),
+     'edits': [(R_, "            'reactions': [reaction.to_dict() for reaction in self.reactions],\n",
+                "            'reactions': (reaction.to_dict() for reaction in self.reactions),\n")]},
+    {'name': 'ConstantMode gets __slots__ (the generic to_dict reads an empty __dict__)',
+     'expect': ('TABLE.roundtrip', 'ConstantMode'),
+     'edits': [(SM_, "    def __init__(self,\n                 q=1.,\n",
+                "    __slots__ = ('q', 'Cv', 'Cp', 'U', 'H', 'S', 'F', 'G', 'notes')\n\n"
+                "    def __init__(self,\n                 q=1.,\n")]},
+    {'name': 'vanDerWaalsEOS.a/.b validated through a property() factory (the generic to_dict writes _a/_b)',
+     'expect': ('TABLE.decode', 'vanDerWaalsEOS'),
+     'edits': [(E_, "class vanDerWaalsEOS(_pmuttBase):\n",
+                "def _positive_property(name):\n"
+                "    private_name = '_{}'.format(name)\n\n"
+                "    def getter(self):\n        return getattr(self, private_name)\n\n"
+                "    def setter(self, val):\n"
+                "        if val <= 0.:\n            raise ValueError('{} must be positive'.format(name))\n"
+                "        setattr(self, private_name, val)\n\n"
+                "    return property(getter, setter)\n\n\n"
+                "class vanDerWaalsEOS(_pmuttBase):\n"),
+               (E_, "    def __init__(self, a, b):\n        self.a = a\n",
+                "    a = _positive_property('a')\n    b = _positive_property('b')\n\n"
+                "    def __init__(self, a, b):\n        self.a = a\n")]},
+]
+EQUIV = [
+    # white-box review, round 3: refactorings that were reported by mistake
+    {'name': 'the encoder raises the TypeError of the base class itself (message built from o.__class__.__name__)',
+     'edits': [(J_, "            super().default(o)\n",
+                "            raise TypeError('Object of type {} is not JSON serializable'\n"
+                "                            ''.format(o.__class__.__name__))\n")]},
+    {'name': 'the encoder names the type through type(o) and the module of the class',
+     'edits': [(J_, "            super().default(o)\n",
+                "            raise TypeError('Object of type {}.{} is not JSON serializable'\n"
+                "                            ''.format(type(o).__module__, type(o).__name__))\n")]},
+    # a number sent through its plain text (str: the shortest text that reads back to the same float) or through 17
+    # significant digits is the same number: only a format that rounds is a change
+    {'name': 'Nasa.to_dict sends the coefficients through str()',
+     'edits': [(N_, "        obj_dict['a_low'] = self.a_low.tolist()\n",
+                "        obj_dict['a_low'] = [float(str(a)) for a in self.a_low]\n")]},
+    {'name': 'Nasa.to_dict sends the coefficients through 17 significant digits',
+     'edits': [(N_, "        obj_dict['a_high'] = self.a_high.tolist()\n",
+                "        obj_dict['a_high'] = [float('{:.16e}'.format(a)) for a in self.a_high]\n")]},
+    {'name': 'IdealGasEOS.get_V as a static method (it never touches the object)',
+     'edits': [('pmutt/eos/__init__.py', "    def get_V(self, T=c.T0('K'), P=c.P0('bar'), n=1.):\n",
+                "    @staticmethod\n    def get_V(T=c.T0('K'), P=c.P0('bar'), n=1.):\n")]},
+]
